@@ -444,3 +444,40 @@ MUTATIONS += [
         }
 """),
 ]
+MUTATIONS += [
+ dict(name="benign-c40-lock-test-extracted-into-helper", props=["C40"], benign=True, file="radix-engine/src/blueprints/access_controller/v2/state_machine.rs",
+      edits=[("radix-engine/src/blueprints/access_controller/v2/state_machine.rs",
+              "pub(super) struct AccessControllerCreateProofStateMachineInput;\n",
+              "pub(super) struct AccessControllerCreateProofStateMachineInput;\n\nimpl AccessControllerV2Substate {\n    fn ensure_primary_role_unlocked(&self) -> Result<(), RuntimeError> {\n        match self.state {\n            (PrimaryRoleLockingState::Unlocked, _, _, _, _) => Ok(()),\n            _ => access_controller_runtime_error!(OperationRequiresUnlockedPrimaryRole),\n        }\n    }\n}\n"),
+             ("radix-engine/src/blueprints/access_controller/v2/state_machine.rs",
+              """        match self.state {
+            (PrimaryRoleLockingState::Unlocked, _, _, _, _) => {
+                if self.controlled_asset.0 .0.is_internal_fungible_vault() {
+                    self.controlled_asset
+                        .create_proof_of_amount(self.controlled_asset.amount(api)?, api)
+                } else {
+                    // u32::MAX is used as vault size is limited to maximum bucket size which is constrained
+                    // by same costing mechanism so we should never be in any danger of never being able to produce proofs
+                    let non_fungible_local_ids = self
+                        .controlled_asset
+                        .non_fungible_local_ids(u32::MAX, api)?;
+                    self.controlled_asset
+                        .create_proof_of_non_fungibles(non_fungible_local_ids, api)
+                }
+            }
+            _ => access_controller_runtime_error!(OperationRequiresUnlockedPrimaryRole),
+        }
+""",
+              """        self.ensure_primary_role_unlocked()?;
+        if self.controlled_asset.0 .0.is_internal_fungible_vault() {
+            self.controlled_asset
+                .create_proof_of_amount(self.controlled_asset.amount(api)?, api)
+        } else {
+            let non_fungible_local_ids = self
+                .controlled_asset
+                .non_fungible_local_ids(u32::MAX, api)?;
+            self.controlled_asset
+                .create_proof_of_non_fungibles(non_fungible_local_ids, api)
+        }
+""")]),
+]
